@@ -162,7 +162,12 @@ func (vc *VC) execAssign(st *State, x *ast.AssignStmt) {
 			}
 		case *ast.TypeAssertExpr:
 			v := vc.eval(st, r.X)
-			vals = []Val{v, sc(vc.declare("assert.ok", SBool), SBool)}
+			okc := vc.declare("assert.ok", SBool)
+			if sv, isS := v.(*Scalar); isS && sv.S == SRef {
+				// no typed-nil pointers are stored in interfaces/pools in this code base (A-POOL)
+				vc.assume(st, implies(okc, not(eq(sv.T, "nil"))))
+			}
+			vals = []Val{v, sc(okc, SBool)}
 		}
 		if vals == nil {
 			tv := vc.eval(st, x.Rhs[0])
@@ -774,7 +779,53 @@ func (vc *VC) execFor(st *State, x *ast.ForStmt, label string) *State {
 		}
 		return end
 	}
-	return vc.execLoop(st, x, label, assigned, condFn, bodyFn, nil)
+	return vc.execLoop(st, x, label, assigned, condFn, bodyFn, vc.countingLoopFact(st, x))
+}
+
+// countingLoopFact: for `for i := c; i < e; i++ { body not assigning i }` the fact i >= c is a
+// built-in invariant (i only steps up by one from c, and i < e rules out wrap-around).
+func (vc *VC) countingLoopFact(st *State, x *ast.ForStmt) func(s *State) {
+	as, ok := x.Init.(*ast.AssignStmt)
+	if !ok || as.Tok != token.DEFINE || len(as.Lhs) != 1 || len(as.Rhs) != 1 {
+		return nil
+	}
+	id, ok := as.Lhs[0].(*ast.Ident)
+	if !ok {
+		return nil
+	}
+	obj := vc.info.ObjectOf(id)
+	inc, ok := x.Post.(*ast.IncDecStmt)
+	if !ok || inc.Tok != token.INC {
+		return nil
+	}
+	if pid, ok := inc.X.(*ast.Ident); !ok || vc.info.ObjectOf(pid) != obj {
+		return nil
+	}
+	be, ok := x.Cond.(*ast.BinaryExpr)
+	if !ok || be.Op != token.LSS {
+		return nil
+	}
+	if cid, ok := be.X.(*ast.Ident); !ok || vc.info.ObjectOf(cid) != obj {
+		return nil
+	}
+	for _, o := range vc.assignedVars(x.Body) {
+		if o == obj {
+			return nil
+		}
+	}
+	init, ok := st.vars[obj].(*Scalar)
+	if !ok || !init.S.IsBV() {
+		return nil
+	}
+	signed := signedType(obj.Type())
+	return func(s *State) {
+		cur := s.vars[obj].(*Scalar)
+		if signed {
+			vc.assume(s, sx("bvsge", cur.T, init.T))
+		} else {
+			vc.assume(s, sx("bvuge", cur.T, init.T))
+		}
+	}
 }
 
 func (vc *VC) execRange(st *State, x *ast.RangeStmt, label string) *State {
